@@ -277,13 +277,10 @@ class ServerSet(object):
     ChildrenWatch(self._zk, self._zk_path, self._on_set_changed)
 
   def _send_all_removed(self):
+    # Raised by the notification worker, so that it stays ordered with the
+    # join / leave batches that are already queued or in progress.
     self._nodes = set()
-    for k in list(self._members.keys()):
-      member = self._members.pop(k)
-      try:
-        self._on_leave(member)
-      except Exception:
-        self._log.exception('Error in OnLeave callback.')
+    self._notification_queue.put(None)
 
   def _notification_worker(self):
     """'Atomically' raise notifications for join / leave.
@@ -295,6 +292,9 @@ class ServerSet(object):
       work = self._notification_queue.get()
       self._cb_blocker.ensure_safe()
       try:
+        if work is None:
+          # The watched path was deleted, every known member is gone.
+          work = ((), list(self._members.keys()))
         new_nodes, removed_nodes = work
         new_members = self._zk_nodes_to_members(new_nodes)
         self._members.update(((m.name, m) for m in new_members))
